@@ -35,3 +35,16 @@ package resource
 //@   assert@call NewWithAttributes#* : $arg1 === combine
 //@   assert@call NewSchemaless#1 : $arg0 === combine
 //@   loop#1 invariant fresh(combine) && framed() && oneOK(mi.one) && oneOK(mi.two)
+
+// OTEL_RESOURCE_ATTRIBUTES: each pair is cut at the first '=', key and value are trimmed BEFORE the value is percent-decoded
+// (so escaped whitespace survives), the decoded value is used as it is (on a decoding error: the original, untrimmed text), a
+// pair without '=' is reported and skipped, the error is non-nil exactly when some pair was skipped
+//@ func constructOTResources(s string) (r *Resource, err error)
+//@   prop C19
+//@   overflow assumed
+//@   unchecked frame fresh slices are written; error handler and url.PathUnescape are outside the contracts
+//@   ensures s == "" ==> err == nil
+//@   assert@call PathUnescape#* : found && (len($arg0) == 0 || ($arg0[0] != ' ' && $arg0[0] != '\t' && $arg0[0] != '\n' && $arg0[len($arg0)-1] != ' ' && $arg0[len($arg0)-1] != '\t' && $arg0[len($arg0)-1] != '\n')) && len($arg0) <= len(v)
+//@   assert@call String#* : found && $arg1 == val && (len($arg0) == 0 || ($arg0[0] != ' ' && $arg0[len($arg0)-1] != ' '))
+//@   assert@call NewSchemaless#* : (len(invalid) > 0) == (err != nil) && len(attrs) + len(invalid) == len(pairs)
+//@   loop#1 invariant len(attrs) + len(invalid) == $k && 0 <= len(attrs) && 0 <= len(invalid)
